@@ -157,6 +157,20 @@ def work_triples(chunk):
     return {"evals": len(texts), "hist": hist, "viol": viol[:50], "samples": texts[7:8]}
 
 
+def work_edges(chunk):
+    """every vocabulary token at the very start / end of the text next to a comment or white space
+    that is not followed by a line break (comment at end of input, CR alone, form feed is not white space)"""
+    texts = []
+    for a in chunk:
+        t = VOCAB[a]
+        for pre in ("", " ", "\n", "//c\n", "\t\n  "):
+            for post in ("", " ", "\n", "//c", " // c", "//", "\r", "\r\n", " \t"):
+                texts.append(pre + t + post)
+                texts.append(pre + t + " " + t + post)
+    hist, viol = _run_texts("edge", texts)
+    return {"evals": len(texts), "hist": hist, "viol": viol[:50], "samples": texts[5:6]}
+
+
 def work_strings(chunk):
     texts = []
     for body in chunk:
@@ -262,6 +276,8 @@ def run(ctx):
         absorb(part)
     triples = [(a, b, tri_seps) for a in range(nv) for b in range(nv)]
     for part in core.pmap(work_triples, triples, chunk=8 if thorough else 40):
+        absorb(part)
+    for part in core.pmap(work_edges, list(range(nv)), chunk=5):
         absorb(part)
     bodies = [""]
     for ln in range(1, str_len + 1):
